@@ -26,8 +26,16 @@ Definition enabled (min : sev) (th : thresholds) (lg : logger) (sv : sev) : bool
 (* the tag a record carries: the tag argument read as a C string, empty when there is none *)
 Definition tag_text (tag : option str) : str := match tag with None => [] | Some t => cstr t end.
 
-(* the message: everything streamed, in order *)
-Definition message (its : list item) : str := concat (map item_text its).
+(* the message: everything streamed, in order — up to an item that makes the std::stringstream fail (a null const char*, …):
+   the standard stream writes nothing from then on.  bad: has the stream already failed *)
+Fixpoint msg_from (bad : bool) (its : list item) : str :=
+  match its with
+  | [] => []
+  | it :: rest => (if bad then [] else item_text it) ++ msg_from (bad || is_fail it) rest
+  end.
+Definition message (its : list item) : str := msg_from false its.
+Fixpoint bad_after (bad : bool) (its : list item) : bool :=
+  match its with [] => bad | it :: rest => bad_after (bad || is_fail it) rest end.
 
 (* the callables streamed, in order *)
 Definition calls_of (its : list item) : list nat :=
@@ -53,7 +61,7 @@ Definition spec_stmt (cfg : config) (th : thresholds) (lg : logger) (sv : sev) (
 (* ---------------------------------------------------------------- programs: logical streams *)
 
 (* a named stream as the programmer thinks of it: on or off (decided when it is created), and its text so far *)
-Record lstream := mkL { l_lg : logger; l_sev : sev; l_tag : str; l_on : bool; l_text : str }.
+Record lstream := mkL { l_lg : logger; l_sev : sev; l_tag : str; l_on : bool; l_text : str; l_bad : bool }.
 
 Record sworld := mkSW { s_th : thresholds; s_slots : nat -> option lstream }.
 
@@ -72,19 +80,21 @@ Definition spec_close (cfg : config) (sw : sworld) (v : nat) : sworld * list eve
 Definition spec_op (cfg : config) (sw : sworld) (o : op) : sworld * list event :=
   match o with
   | OSet rc k s => (mkSW (set_threshold (s_th sw) rc k s) (s_slots sw), [])
-  | OOne lg sv tag its => (sw, spec_stmt cfg (s_th sw) lg sv tag its)
+  | OOne _ lg sv tag its => (sw, spec_stmt cfg (s_th sw) lg sv tag its)       (* whatever the context *)
+  | ONamed _ lg sv tag its => (sw, spec_stmt cfg (s_th sw) lg sv tag its)
   | OOpen v lg sv tag =>
       let '(sw1, ev) := spec_close cfg sw v in
       (mkSW (s_th sw1) (set_lslot (s_slots sw1) v
-              (Some (mkL lg sv (rec_tag lg tag) (enabled (c_min cfg) (s_th sw1) lg sv) []))), ev)
+              (Some (mkL lg sv (rec_tag lg tag) (enabled (c_min cfg) (s_th sw1) lg sv) [] false))), ev)
   | OPut v it =>
       match s_slots sw v with
       | None => (sw, [])
       | Some l =>
           if l_on l
           then (mkSW (s_th sw) (set_lslot (s_slots sw) v
-                        (Some (mkL (l_lg l) (l_sev l) (l_tag l) true (l_text l ++ item_text it)))),
-                map Call (calls_of [it]))          (* a callable is called here, when it is streamed *)
+                        (Some (mkL (l_lg l) (l_sev l) (l_tag l) true (l_text l ++ (if l_bad l then [] else item_text it))
+                                   (l_bad l || is_fail it)))),
+                map Call (calls_of [it]))          (* a callable is called here, when it is streamed — failed stream or not *)
           else (sw, [])
       end
   | OClose v => spec_close cfg sw v
@@ -113,7 +123,7 @@ Inductive sitem :=
 Definition sitem_ops (x : sitem) : list op :=
   match x with
   | SSet rc k s => [OSet rc k s]
-  | SStmt OneExpr lg sv tag its => [OOne lg sv tag its]
+  | SStmt OneExpr lg sv tag its => [OOne CNormal lg sv tag its]
   | SStmt Named lg sv tag its => named_ops 0 lg sv tag its
   end.
 
